@@ -47,6 +47,7 @@ inductive Msg
   | chanFailure (id : Nat)
   | authSuccess                         -- type 52: accepted only as a one-byte packet
   | ping (data : Bytes)
+  | service (name : Bytes)              -- types 5 / 6 (SERVICE_REQUEST / SERVICE_ACCEPT): one string
 deriving DecidableEq, Repr
 
 inductive DErr | parse | unexpected | unmodelled
@@ -133,8 +134,13 @@ def decodeBody (t : Nat) (b : Bytes) : Except DErr Msg :=
     match rdU32 b with
     | none => .error .parse
     | some (id, r) => done (.chanFailure id) r
+  else if t = 5 || t = 6 then
+    -- transport-layer messages that decode() knows; as a "channel packet" the string length is read as the channel id
+    match rdStr b with
+    | none => .error .parse
+    | some (name, r) => done (.service name) r
   else if t = 52 then done .authSuccess b   -- decode rejects trailing bytes after SSH_MSG_USERAUTH_SUCCESS (repo commit 5ae9b7b)
-  else if t ∈ [1, 5, 6, 7, 20, 30, 31, 50, 51, 53, 60, 61, 64, 65, 66] then .error .unmodelled
+  else if t ∈ [1, 7, 20, 30, 31, 50, 51, 53, 60, 61, 64, 65, 66] then .error .unmodelled
   else .error .unexpected
 
 def decode (p : Bytes) : Except DErr Msg :=
@@ -184,6 +190,7 @@ def Mux.init : Mux := ⟨[], [], false, none, none, false, 0, []⟩
 inductive Outcome
   | ok
   | err          -- onePacket returned an error: the loop ends, the connection is torn down
+  | blocks       -- the loop goroutine parks for ever in `ch.msg <- msg` (17th unsolicited message, nobody reads)
   | panic
 deriving DecidableEq, Repr
 
@@ -212,12 +219,12 @@ def newChan (inbound : Bool) (uid : Nat := 0) : Chan :=
 def chanSend (c : Chan) (ev : String) (isClose : Bool) : Chan × Evs :=
   if c.sentClose then (c, []) else ({ c with sentClose := isClose }, [ev])
 
-/-- `ch.msg <- x` (blocking send; capacity 16). A send on the closed channel panics; a 17th message blocks
-    the mux loop for ever: modelled as `none` (the driver refuses such ops: observation O-default-arm). -/
-def pushMsg (c : Chan) (x : QMsg) : Option (Outcome × Chan) :=
-  if c.closed then some (.panic, c)
-  else if c.msgQ.length ≥ 16 then none
-  else some (.ok, { c with msgQ := c.msgQ ++ [x] })
+/-- `ch.msg <- x` (blocking send; capacity 16). A send on the closed channel panics; with 16 messages queued and
+    nobody receiving, the send blocks the mux loop for ever (`Outcome.blocks`). -/
+def pushMsg (c : Chan) (x : QMsg) : Outcome × Chan :=
+  if c.closed then (.panic, c)
+  else if c.msgQ.length ≥ 16 then (.blocks, c)
+  else (.ok, { c with msgQ := c.msgQ ++ [x] })
 
 /-- `select { case ch.msg <- x: default: }` -/
 def tryPushMsg (c : Chan) (x : QMsg) : Outcome × Chan :=
@@ -263,12 +270,11 @@ def handleChanPacket (m : Mux) (id : Nat) (c : Chan) (p : Bytes) (t : Nat) : Opt
         match responseOk c with
         | none => some (.err, m, [])
         | some c =>
-          match pushMsg c (.failure reason) with
-          | none => none
-          | some (o, c) =>
-            -- chanList.remove(msg.PeersID) — the id the peer wrote, which is the id used for the lookup
-            let m := setChan m pid none
-            some (o, { m with detached := m.detached ++ [c] }, [])
+          let (o, c) := pushMsg c (.failure reason)
+          if o = .blocks then some (.blocks, m, []) else
+          -- chanList.remove(msg.PeersID) — the id the peer wrote, which is the id used for the lookup
+          let m := setChan m pid none
+          some (o, { m with detached := m.detached ++ [c] }, [])
       | .openConfirm _ myId myWin maxPkt _ =>
         match responseOk c with
         | none => some (.err, m, [])
@@ -278,9 +284,8 @@ def handleChanPacket (m : Mux) (id : Nat) (c : Chan) (p : Bytes) (t : Nat) : Opt
           | none => none      -- (cannot happen: remoteWin = 0 before the confirmation; result of add is ignored by the code)
           | some w =>
             let c := { c with remoteId := myId, maxRemote := maxPkt, remoteWin := w }
-            match pushMsg c .confirm with
-            | none => none
-            | some (o, c) => some (o, setChan m id (some c), [])
+            let (o, c) := pushMsg c .confirm
+            some (o, setChan m id (some c), [])
       | .windowAdjust _ n =>
         match C35.addWin c.remoteWin n with
         | none => some (.err, m, [])
@@ -303,9 +308,9 @@ def handleChanPacket (m : Mux) (id : Nat) (c : Chan) (p : Bytes) (t : Nat) : Opt
         let (o, c) := tryPushMsg c .reqFailure
         some (o, setChan m id (some c), [])
       | _ =>
-        match pushMsg c .other with
-        | none => none
-        | some (o, c) => some (o, setChan m id (some c), [])
+        -- `default: ch.msg <- msg`
+        let (o, c) := pushMsg c .other
+        some (o, setChan m id (some c), [])
 
 /-- mux.onePacket on a packet returned by readPacket. `none` = outside the modelled fragment (driver: bad-op). -/
 def onePacket (m : Mux) (p : Bytes) : Option (Outcome × Mux × Evs) :=
@@ -409,6 +414,27 @@ def localGlobal (m : Mux) (call : Nat) (want : Bool) : Mux × Evs :=
   else if !want then (m, ["w80:0", s!"G{call}=nowait"])
   else ({ m with globalCaller := some call }, ["w80:1"])
 
+/-- ch.sentRequestMu: a SendRequest(wantReply) on handle `h` would wait for the mutex held by the call whose reply
+    is still awaited (the harness does not issue such a call) -/
+def chanReqBlocks (m : Mux) (h : Nat) (want : Bool) : Bool :=
+  match m.held[h]? with
+  | some uid => match findByUid m uid with
+    | some (_, c) => c.requester.isSome && want
+    | none => false
+  | none => false
+
+/-- channel.SendRequest on one channel: gate + drain (wantReply), send, register the waiting caller -/
+def chanReqCore (c : Chan) (call : Nat) (want : Bool) : Chan × Evs :=
+  if !c.decided then (c, [s!"R{call}=und"]) else
+  -- sentRequestMu taken; sentRequestPending := true; every message still buffered in ch.msg is discarded
+  let c := if want then { c with reqPending := true, msgQ := [] } else c
+  if c.sentClose then
+    -- sendMessage fails (io.EOF); only a wantReply call had opened the gate and closes it again on return
+    ({ c with reqPending := if want then false else c.reqPending }, [s!"R{call}=err"]) else
+  let ev := s!"w98:{c.remoteId}:{if want then 1 else 0}"
+  if !want then (c, [ev, s!"R{call}=nowait"])
+  else ({ c with requester := some call }, [ev])
+
 /-- channel.SendRequest on the application's handle `h` (index into `held`) -/
 def localChanReq (m : Mux) (call h : Nat) (want : Bool) : Option (Mux × Evs) :=
   match m.held[h]? with
@@ -417,14 +443,8 @@ def localChanReq (m : Mux) (call h : Nat) (want : Bool) : Option (Mux × Evs) :=
     match findByUid m uid with
     | none => none
     | some (loc, c) =>
-      if !c.decided then some (m, [s!"R{call}=und"]) else
-      let c := if want then { c with reqPending := true, msgQ := [] } else c       -- gate + drain
-      if c.sentClose then
-        -- sendMessage fails (io.EOF); only a wantReply call had opened the gate and closes it again on return
-        some (putBack m loc { c with reqPending := if want then false else c.reqPending }, [s!"R{call}=err"]) else
-      let ev := s!"w98:{c.remoteId}:{if want then 1 else 0}"
-      if !want then some (putBack m loc c, [ev, s!"R{call}=nowait"])
-      else some (putBack m loc { c with requester := some call }, [ev])
+      let (c', ev) := chanReqCore c call want
+      some (putBack m loc c', ev)
 
 /-- channel.Close on handle `h` -/
 def localClose (m : Mux) (call h : Nat) : Option (Mux × Evs) :=
